@@ -310,6 +310,110 @@ def mulWindow (P Q : List K) (val deg : Nat) : List K :=
     let j0 := i + val - k0
     dot (P.drop j0) ((Q.take (k0 + 1)).reverse) 0))
 
+/-! ### givpoly1midmul.inl: middle products on ranges -/
+
+/-- `*ri += *ai * b` along the two ranges (inner loop of `stdmidmul`, `axpyin(*ri,*ai,*bi)` with `bi` fixed) -/
+def zipAxpyR (b : K) : List K → List K → List K
+  | r :: R, a :: A => (r + a * b) :: zipAxpyR b R A
+  | R, _ => R
+
+/-- first row of `stdmidmul`: `R[i] = P[i]*Q[n-1]` (written as zero when either factor is zero), zero-filled to the range -/
+def midRow0 (b : K) : Nat → List K → List K
+  | 0, _ => []
+  | n + 1, [] => 0 :: midRow0 b n []
+  | n + 1, a :: P => (if b = 0 then 0 else if a = 0 then 0 else a * b) :: midRow0 b n P
+
+/-- the rows `t = 1, 2, …` of `stdmidmul`: `P` advanced by one (`++aig`), `Q` walked down from `Q[n-2]` (`--bi`, here the
+    reversed rest of `Q`), rows with a zero coefficient of `Q` skipped; stops at the end of either -/
+def midRows : List K → List K → List K → List K
+  | _ :: P, b :: Qr, R => midRows P Qr (if b = 0 then R else zipAxpyR b R P)
+  | _, _, R => R
+
+/-- `stdmidmul(R,Rbeg,Rend,P,Pbeg,Pend,Q,Qbeg,Qend)` on an R range of length `r` (`Q` not empty: `--bi` from `Qend`) -/
+def stdmidmulR (r : Nat) (P Q : List K) : List K :=
+  if r = 0 then [] else
+  match Q.reverse with
+  | [] => zeros r
+  | bl :: Qr => midRows P Qr (midRow0 bl r P)
+
+/-- coefficientwise sum / difference of two ranges stopping at the shorter (`TMP` constructions and the `S2` updates) -/
+def zipAddS : List K → List K → List K
+  | a :: A, b :: B => (a + b) :: zipAddS A B
+  | _, _ => []
+def zipSubS : List K → List K → List K
+  | a :: A, b :: B => (a - b) :: zipSubS A B
+  | _, _ => []
+
+/-- one level of `karamidmul` (balanced: `|P| = 2|Q|-1`, R range of length `r`); `mid` is the generic range middle product
+    used for the three recursive calls; `n0, n1, P0end, P1beg, P1plus, P1minus, P2beg, Qmid, Rmid` as in the source -/
+def karamidStep (mid : Nat → List K → List K → List K) (r : Nat) (P Q : List K) : List K :=
+  if r = 0 then [] else
+  match Q with
+  | [q] => pad r [P.getD 0 0 * q]
+  | _ =>
+    let n := Q.length
+    let n0 := n / 2
+    let n1 := n0 + n % 2
+    let Q0 := Q.take n0
+    let Q1 := Q.drop n0
+    let P0 := P.take (2 * n1 - 1)
+    let P1p := (P.drop n1).take (2 * n1 - 1)
+    let P1m := (P.drop n1).take (2 * n0 - 1)
+    let P2 := P.drop (2 * n1)
+    let rmid := min n1 r
+    -- R0 <- S0 = MP(P1+ + P0, Q1)
+    let R0 := pad rmid (mid rmid (pad (2 * n1 - 1) (zipAddS P0 P1p)) Q1)
+    -- R1 <- S1 = MP(P1- + P2, Q0)
+    let R1 := pad (r - rmid) (mid (r - rmid) (pad (2 * n0 - 1) (zipAddS P1m P2)) Q0)
+    -- Rtmp <- S2 = MP(P1+, Q1 - X^(n%2) Q0)
+    let TMP := if n0 = n1 then zipSubS Q1 Q0 else (Q1.getD 0 0) :: zipSubS (Q1.drop 1) Q0
+    let S2 := pad n1 (mid n1 P1p (pad n1 TMP))
+    -- R0 -= S2 ; R1 += S2
+    zipSub R0 S2 ++ zipAdd R1 S2
+
+/-- generic `midmul` on ranges: `stdmidmul` when `min(m,n) <= thr`, `karamidmul` when balanced, otherwise blocks of
+    balanced products along `P` (`m > n`) or along `Q` with accumulation into `R` (`m < n`) and a recursive call for
+    what is left; `m = |P| - |Q| + 1` -/
+def midR (thr : Nat) : Nat → Nat → List K → List K → List K
+  | 0, r, P, Q => stdmidmulR r P Q
+  | fuel + 1, r, P, Q =>
+    let n := Q.length
+    let m := P.length + 1 - n
+    if P.length + 1 ≤ n ∨ min m n ≤ thr then stdmidmulR r P Q
+    else if m = n then karamidStep (midR thr fuel) r P Q
+    else if m > n then
+      -- for (i = 0; i <= m-n; i += n) karamidmul(R[i,i+n), P[i,i+2n-1), Q);  then midmul on the rest
+      let blocks := (m - n) / n + 1
+      let done := (List.range blocks).flatMap (fun c =>
+        karamidStep (midR thr fuel) n ((P.drop (c * n)).take (2 * n - 1)) Q)
+      let i := blocks * n
+      if i < m then done ++ pad (r - i) (midR thr fuel (r - i) (P.drop i) Q) else pad r done
+    else
+      -- m < n: blocks of m coefficients of Q from the bottom against windows of P from the top, accumulated into R
+      let blocks := n / m
+      let parts := (List.range blocks).map (fun c =>
+        karamidStep (midR thr fuel) m ((P.take (P.length - c * m)).drop (P.length - c * m - (2 * m - 1)))
+          ((Q.drop (c * m)).take m))
+      let acc := match parts with
+        | [] => zeros m
+        | p0 :: rest => rest.foldl (fun R T => zipAdd R T) p0     -- the first block is written into R, the others added
+      let used := blocks * m
+      if used < n then zipAdd acc (pad m (midR thr fuel m (P.take (P.length - used)) (Q.drop used))) else acc
+
+/-- `midmul(R,P,Q)` -/
+def midmul (thr : Nat) (P Q : List K) : List K :=
+  if P.isEmpty ∨ Q.isEmpty then []
+  else setdegree (pad (P.length - Q.length + 1) (midR thr (P.length + Q.length) (P.length - Q.length + 1) P Q))
+
+/-- `stdmidmul(R,P,Q)` -/
+def stdmidmul (P Q : List K) : List K :=
+  setdegree (pad (P.length - Q.length + 1) (stdmidmulR (P.length - Q.length + 1) P Q))
+
+/-- `karamidmul(R,P,Q)` (first level forced; assumes `|P| = 2|Q|-1`) -/
+def karamidmul (thr : Nat) (P Q : List K) : List K :=
+  setdegree (pad (P.length - Q.length + 1)
+    (karamidStep (midR thr (P.length + Q.length)) (P.length - Q.length + 1) P Q))
+
 /-! ### givpoly1axpy.inl: fused forms (compositions of the above, as in the source) -/
 
 def axpy (thr : Nat) (A X Y : List K) : List K := addin (mul thr A X) Y
@@ -427,6 +531,110 @@ def divmodin (thr : Nat) (R B : List K) : List K × List K :=
   let Q := div thr R B
   (Q, maxpyin thr (setdegree R) Q (setdegree B))
 
+/-! ### givpoly1muldiv.inl: pseudo-division `pdivmod(Q,R,m,A,B)`, `pmod(R,m,A,B)` (as repaired by fixes/C08_4) -/
+
+/-- the `for (i=degQuo; i>=0; --i)` loop; `k+1` rounds are left and the current `degQuo` is `k`.  `Qh` are the quotient
+    coefficients already produced (`Q[degQuo+1 …]`, each multiplied by `lB` every round), `R` the part of the remainder
+    array not yet forced to zero (`R[0 … degRem]`, what lies above is zero and is cut by the final `resize`):
+    `Q[k] = R[degRem]`; `R[j] *= lB` for `j<k`; `R[j+k] = R[j+k]·lB - Q[k]·B[j]` for `j<degB`; `m *= lB` -/
+def pdivmodLoop (lB : K) (Bl : List K) : Nat → List K → List K → K → List K × List K × K
+  | 0, Qh, R, m => (Qh, R, m)
+  | k + 1, Qh, R, m =>
+    let c := R.getD (k + Bl.length) 0
+    let R' := (R.take k).map (fun r => r * lB)
+              ++ List.zipWith (fun r b => r * lB - c * b) ((R.drop k).take Bl.length) Bl
+    pdivmodLoop lB Bl k (c :: Qh.map (fun q => q * lB)) R' (m * lB)
+
+/-- `pdivmod(Q,R,m,A,B)` (precondition `B ≠ 0`): returns `(Q, R, m)` -/
+def pdivmod (A B : List K) : List K × List K × K :=
+  let An := setdegree A
+  let Bn := setdegree B
+  if degree A < 0 then ([], [], 1)
+  else if degree B = 0 then (An, [], Bn.getD 0 0)
+  else if degree B > degree A then ([], An, 1)
+  else
+    let dB := Bn.length - 1
+    let r := pdivmodLoop (Bn.getD dB 0) (Bn.take dB) (An.length - Bn.length + 1) [] An 1
+    (setdegree r.1, setdegree r.2.1, r.2.2)
+
+/-- the `for (; degB <= degR; --steps)` loop of `pmod` (`R` is normalised by `degree(degR,R)` every round) -/
+def pmodLoop (lB : K) (Bl : List K) : Nat → Nat → List K → List K × Nat
+  | 0, s, R => (setdegree R, s)
+  | fuel + 1, s, R =>
+    let Rn := setdegree R
+    if Bl.length + 1 ≤ Rn.length then
+      let d := Rn.length - 1 - Bl.length
+      let c := Rn.getD (Rn.length - 1) 0
+      let R' := (Rn.take d).map (fun r => r * lB)
+                ++ List.zipWith (fun r b => r * lB - c * b) ((Rn.drop d).take Bl.length) Bl
+      pmodLoop lB Bl fuel (s - 1) R'
+    else (Rn, s)
+
+/-- `steps` further multiplications of the whole remainder by `lB` -/
+def scaleTimes (lB : K) : Nat → List K → List K
+  | 0, R => R
+  | s + 1, R => scaleTimes lB s (mulVal R lB)
+
+/-- `x^n` (the value of `dom_power(m, x, n, _domain)` of givpower.h, which is not an anchored file: only its value is modelled) -/
+def npow (x : K) : Nat → K
+  | 0 => 1
+  | n + 1 => npow x n * x
+
+/-- `pmod(R,m,A,B)` (precondition `B ≠ 0`): returns `(R, m)`, `m = lB^(deg A - deg B + 1)` by `dom_power` -/
+def pmod (A B : List K) : List K × K :=
+  let An := setdegree A
+  let Bn := setdegree B
+  if degree A < 0 then ([], 1)
+  else if degree B = 0 then ([], Bn.getD 0 0)
+  else if degree B > degree A then (An, 1)
+  else
+    let dB := Bn.length - 1
+    let lB := Bn.getD dB 0
+    let steps := An.length - Bn.length + 1
+    let r := pmodLoop lB (Bn.take dB) (An.length + 1) steps An
+    (setdegree (scaleTimes lB r.2 r.1), npow lB steps)
+
+/-! ### givpoly1muldiv.inl: `modin(A,B)`, the in-place long division -/
+
+/-- One round of the outer loop `for (; i>=0; --i)`, seen through the reverse iterators.  `w` is the *window*: the
+    coefficients of the running remainder from the leading one (`*A.rbegin()`) down to the constant one, i.e. the first
+    `B.size()+i` entries of the reversed storage (what lies beyond — the zero written by `*aai = zero` and stale
+    copies — is never read and is erased at the end by `A.erase`); `b = b0 :: bt` is `B` from its leading coefficient.
+    `l = *ai / *bi`; `*aai = *ai - l·*bi` is recomputed into the leading slot while it is zero (`--i` each time),
+    from the first non-zero value the remaining ones are written behind it, then the rest of `A` is copied down. -/
+def modinStep (b0 : K) (bt : List K) : List K → List K
+  | [] => []
+  | w0 :: wt =>
+    let l := w0 / b0
+    let cs := List.zipWith (fun a b => a - l * b) wt bt
+    cs.dropWhile (fun c => decide (c = 0)) ++ wt.drop bt.length
+
+/-- the outer loop runs while `i >= 0`, i.e. while the window has at least `B.size()` entries -/
+def modinLoop (b0 : K) (bt : List K) : Nat → List K → List K
+  | 0, w => w
+  | fuel + 1, w => if bt.length + 1 ≤ w.length then modinLoop b0 bt fuel (modinStep b0 bt w) else w
+
+/-- `modin(A,B)` (as repaired by fixes/C08_4: both operands are normalised first; precondition `B ≠ 0`): the final
+    `A.erase` keeps exactly the window, then `setdegree` -/
+def modin (A B : List K) : List K :=
+  match (setdegree B).reverse with
+  | [] => setdegree A
+  | b0 :: bt => setdegree (modinLoop b0 bt (A.length + 1) (setdegree A).reverse).reverse
+
+/-! ### givpoly1misc.inl: `powmod(W,P,pwr,U)` -/
+
+/-- `while (n>0) { if (n&1) { mulin(W,puiss); modin(W,U); } sqr(tmp,puiss); mod(puiss,tmp,U); n >>= 1; }` -/
+def powmodLoop (thr : Nat) (U : List K) : Nat → Nat → List K → List K → List K
+  | 0, _, W, _ => W
+  | fuel + 1, n, W, puiss =>
+    if n = 0 then W else
+      let W' := if n % 2 = 1 then modin (mulin thr W puiss) U else W
+      powmodLoop thr U fuel (n / 2) W' (mod thr (sqr thr puiss) U)
+
+/-- `powmod(W,P,pwr,U)` for `pwr ≥ 0` (as repaired by fixes/C08_7: `W` starts as `1 mod U`, not `1`) -/
+def powmod (thr : Nat) (P : List K) (n : Nat) (U : List K) : List K :=
+  setdegree (powmodLoop thr U (n + 1) n (mod thr [1] U) (mod thr P U))
+
 /-! ### givpoly1gcd.inl: extended gcd `gcd(F,S0,T0,A,B)` -/
 
 /-- the `while (!isZero(G))` loop.  `divf` is the quotient `div(Q,F,G)` (Newton division, not modelled: a parameter);
@@ -497,6 +705,21 @@ def invmod (thr fuel : Nat) (A B : List K) : Option (List K) :=
   else invmodLoop thr (div thr) fuel (divVal (assign A) (leadcoef A)) (divVal (assign B) (leadcoef B))
          (assignC (leadcoef A)⁻¹) []
 
+/-! ### givpoly1gcd.inl: `invmodunit(S0,A,B)` -/
+
+/-- the loop of `invmodunit`: the plain (not normalised) remainder sequence with the cofactor of `A` -/
+def invmodunitLoop (thr : Nat) : Nat → List K → List K → List K → List K → Option (List K)
+  | 0, _, _, _, _ => none
+  | fuel + 1, F, G, S0, S1 =>
+    if isZero G then some S0 else
+      let QR := divmod thr F G
+      invmodunitLoop thr fuel (assign G) (assign QR.2) (assign S1) (assign (sub S0 (mul thr QR.1 S1)))
+
+/-- `invmodunit(S0,A,B)`: `U` with `U·A = e + V·B`, `e` a non-zero constant -/
+def invmodunit (thr fuel : Nat) (A B : List K) : Option (List K) :=
+  if degree A ≤ 0 ∨ degree B ≤ 0 then some (assignC 1)
+  else invmodunitLoop thr fuel (assign A) (assign B) (assign [1]) (assign [])
+
 /-! ### givpoly1gcd.inl: `lcm(F,A,B)` -/
 
 /-- the loop of `lcm` (the same remainder sequence with both cofactor rows); the value used after the loop is `S1` -/
@@ -541,3 +764,47 @@ def powLoop (thr : Nat) : Nat → Nat → List K → List K → List K
 def pow (thr : Nat) (P : List K) (n : Nat) : List K := powLoop thr (n + 1) n (assign [1]) (assign P)
 
 end Givaro.Model.Poly
+
+/-! ### givpoly1padic.h: conversion between polynomials over Z/p and integers written in base p
+
+Coefficients are the canonical residues `0 … p-1` (what `_domain.convert` returns for `Modular<…>`), as `Nat`. -/
+namespace Givaro.Model.Padic
+
+/-- `eval(E, P)`: `0` for the empty polynomial, else Horner from the leading coefficient: `E = E·p + P[i]` -/
+def eval (p : Nat) : List Nat → Nat
+  | [] => 0
+  | a :: P => a + p * eval p P
+
+/-- strip leading zero digits (`setdegree` over Z/p) -/
+def setdegree : List Nat → List Nat
+  | [] => []
+  | a :: P =>
+    match setdegree P with
+    | [] => if a = 0 then [] else [a]
+    | b :: Q => a :: b :: Q
+
+/-- `init(P, Degree(0), E)`: the constant `E mod p` (`[]` when it is zero) -/
+def initConst (p E : Nat) : List Nat := if E % p = 0 then [] else [E % p]
+
+/-- `radix(P, E, n)` for `n ≥ 1`: one digit when `n = 1`; else `t = (n+1)/2`, `E = iq·p^t + ir`, the `t` low digits (padded
+    with zeros up to `t`) followed by the `n-t` high ones, then `setdegree` -/
+def radixN (p : Nat) : Nat → Nat → Nat → List Nat
+  | 0, E, _ => initConst p E
+  | fuel + 1, E, n =>
+    if n ≤ 1 then initConst p E
+    else
+      let t := (n + 1) / 2
+      let q := p ^ t
+      let Q := radixN p fuel (E / q) (n - t)
+      let P := setdegree (radixN p fuel (E % q) t)
+      setdegree (P ++ List.replicate (t - P.length) 0 ++ Q)
+
+/-- number of base-`p` digits of `E` (`logp(E,p) + 1` of gmp++, which is not an anchored file: only its value is modelled) -/
+def ndigits (p : Nat) : Nat → Nat → Nat
+  | 0, _ => 1
+  | fuel + 1, E => if E < p then 1 else 1 + ndigits p fuel (E / p)
+
+/-- `radix(P, E)` with the default `n = 0` -/
+def radix (p E : Nat) : List Nat := radixN p (ndigits p E E) E (ndigits p E E)
+
+end Givaro.Model.Padic
